@@ -13,7 +13,9 @@ import (
 	"verif/sim"
 )
 
-var c15Names = []string{"-", "-k", "data.bin", "my file.txt", "report", "a b c.log", "x", "notes.md", "IMG 0001.raw", "weird.name.here", "Z", "-dash.txt", "--double", "été.txt", "tab\tname"}
+var c15Names = []string{"-", "-k", "data.bin", "my file.txt", "report", "a b c.log", "x", "notes.md", "IMG 0001.raw", "weird.name.here", "Z", "-dash.txt", "--double", "été.txt", "tab\tname",
+	// names that read like the value of a boolean or numeric option
+	"1", "0", "true", "false", "t", "F", "TRUE", "2024", "7"}
 
 func genForeignStream(r *sim.Rng, format string) *checks.StreamRecipe {
 	if files := checks.CorpusFiles(format); len(files) > 0 && r.Chance(1, 6) {
@@ -201,9 +203,22 @@ func genC15(r *sim.Rng, tier string, idx int) *GCase {
 			e := modelOperand(&v, stateOf(buildWorld(c)), f.Name)
 			if e.Target != "" && !used[e.Target] {
 				used[e.Target] = true
-				if r.Chance(1, 5) {
+				switch r.Weighted([]int{8, 2, 2}) {
+				case 1:
 					c.Files = append(c.Files, FileSpec{Name: e.Target, Kind: "dir"})
-				} else {
+				case 2:
+					// the name is taken by a symbolic link: dangling, to a file, to a directory
+					ref := "nowhere"
+					switch r.Intn(3) {
+					case 1:
+						ref = pickName(false) + ".referent"
+						c.Files = append(c.Files, genPlainFile(r, ref, 100))
+					case 2:
+						ref = pickName(false) + ".d"
+						c.Files = append(c.Files, FileSpec{Name: ref, Kind: "dir"})
+					}
+					c.Files = append(c.Files, FileSpec{Name: e.Target, Kind: "symlink", Target: ref})
+				default:
 					c.Files = append(c.Files, genPlainFile(r, e.Target, 100))
 				}
 			}
